@@ -10,7 +10,7 @@ PROPS_MODULE = "Props.C16"
 THEOREMS = ["default_all_diagrams_correct", "graph_ok_meaning", "layers_are_children", "positions_always_distinct",
             "distinct_pos_spec"]
 EXTRA_PROPS = {"Props.C16s": ["synth_all_diagrams_correct"]}
-REQUIRED = ["Proofs/CertSynth/SynthGraphs.v", "Props/C16s.v", "Props/C16.v", "Proofs/CertDefault/Graphs.v"]
+REQUIRED = ["Proofs/CertSynth/SynthGraphs.v", "Props/C16s.v", "Props/C16.v", "Proofs/CertDefault/Graphs.v", "Proofs/CertDefault/Struct.v"]
 TRANSLATORS = ["synth_dataset", "tr_data_synth", "tr_data", "tr_tables"]
 SHAPE_KEYS = ["_build_decay_digraph", "_parse_nuclide_label", "_parse_decay_mode_label", "Nuclide::plot", "Nuclide::progeny",
               "Nuclide::branching_fractions", "Nuclide::decay_modes", "DecayData::half_life"]
